@@ -2,6 +2,7 @@ package main
 
 import (
 	"bytes"
+	"io"
 	"math/rand"
 
 	"github.com/ulikunitz/lz"
@@ -13,8 +14,14 @@ import (
 // It conforms to io.Writer (a short write always returns an error) and logs
 // every call.
 type schedWriter struct {
-	sched [][2]int // accept (<0: all), fail (0/1)
+	// accept (<0: all), fail: 0 no, 1 the harness error, 2 io.ErrShortWrite
+	// (what a bufio.Writer reports), 3 the device dies: this and every later
+	// call returns (0, io.ErrShortWrite)
+	sched [][2]int
 	calls int
+	dead  bool
+	// consecutive calls inside one API call that failed without taking a byte
+	failedInRow int
 	// per API call
 	wcalls     []any
 	emptyInRow int
@@ -24,15 +31,20 @@ type schedWriter struct {
 func (w *schedWriter) beginCall(in string) {
 	w.wcalls = []any{}
 	w.emptyInRow = 0
+	w.failedInRow = 0
 	w.in = in
 }
 
 func (w *schedWriter) Write(p []byte) (int, error) {
-	accept, fail := -1, false
+	accept, fail, kind := -1, false, 0
 	if w.calls < len(w.sched) {
-		accept, fail = w.sched[w.calls][0], w.sched[w.calls][1] != 0
+		accept, kind = w.sched[w.calls][0], w.sched[w.calls][1]
+		fail = kind != 0
 	}
 	w.calls++
+	if kind == 3 {
+		w.dead = true
+	}
 	k := len(p)
 	if accept >= 0 && accept < k {
 		k = accept
@@ -40,6 +52,22 @@ func (w *schedWriter) Write(p []byte) (int, error) {
 	var err error
 	if k < len(p) || fail {
 		err = errHarnessWriter
+		if kind == 2 {
+			err = io.ErrShortWrite
+		}
+	}
+	if w.dead {
+		k, err = 0, io.ErrShortWrite
+	}
+	// a call that keeps asking a writer which fails without taking a byte
+	// never ends either (C06)
+	if k == 0 && err != nil {
+		w.failedInRow++
+		if w.failedInRow >= 50 {
+			panic(livelock{in: "writer failed 50 times in a row inside one call without taking a byte"})
+		}
+	} else {
+		w.failedInRow = 0
 	}
 	w.wcalls = append(w.wcalls, []any{B(p), k, decErr(err)})
 	// Repeated-state detection (C06): a retry loop that keeps flushing
@@ -210,6 +238,12 @@ func genDecoder(seed int64, n int, tier string) []Script {
 				} else {
 					sched = append(sched, [2]int{-1, 0})
 				}
+			}
+			switch r.Intn(6) {
+			case 0: // one of the faults is a short write in the bufio style
+				sched[r.Intn(len(sched))] = [2]int{r.Intn(3), 2}
+			case 1: // the device dies at some point
+				sched = append(sched[:r.Intn(len(sched)+1)], [2]int{0, 3})
 			}
 		}
 		// sizes around the interesting boundaries
